@@ -8,6 +8,8 @@ from ..ref import bits
 from ..ref import commb as rc
 
 LEVEL = "exploration"
+TECHNIQUE = 'runtime monitoring: declarative Doc 9871 field table as oracle, exhaustive raw values x status x sign, single-bit non-interference flips'
+LEVEL_TEXT = 'Every raw value of every tabulated field is executed on every run; other MB/header/parity bits sampled and flipped one at a time.'
 EXHAUSTIVE = True
 LEVEL_RULE = (
     "Every field decoder of BDS 1,0 1,7 4,0 4,4 4,5 5,0 5,3 6,0 called on DF20/21 replies built from a declarative Doc 9871 "
